@@ -1,19 +1,202 @@
 /-
-  C17 — the v1 fee against the Vault's integer rule (`VaultUtils.getFeeBasisPoints`, model `vaultFeeBps`).
+  C17 — the v1 fee against the Vault's integer rule (`VaultUtils.getFeeBasisPoints` / `Vault.getTargetUsdgAmount`,
+  reference model `vaultFeeBps` / `vaultTarget` in Demeter/GmxV1.lean).  The code computes target, average distance
+  and rebate as fractions; the contract rounds each down.  Away from the rule's own discontinuity the two agree within
+  one basis point (plus the target's rounding, `200 / target`); at the discontinuity they can differ by the whole range.
 -/
-import Proofs.Lemmas.GmxV1Spec
+import Proofs.Lemmas.GmxV1Fee
 namespace Demeter
 open Demeter.GmxV1 Demeter.Gmx
 
-/-- **witness: at the rule's discontinuity the code and the Vault disagree by the whole fee range.**  The Vault's rule
-    jumps from "rebate" to "tax" where the pool's distance from the target stops shrinking (`|next − T| = |initial − T|`).
-    The code uses the fractional target `w·S/W`, the contract the rounded-down one; with `initial = 0`, `Δ = 2·⌊T⌋` and
-    `T = 1000.5` the code sees an improvement (fee 0) and the contract does not (fee 25 + 60).  Finding
-    `v1.fee.vault_rule.branch_edge`. -/
+/-- the Vault's rule, given both integer distances from the (non-zero) target -/
+def Gmx.vaultFromDiffs (idiff ndiff v f tx : Nat) : Nat :=
+  if ndiff < idiff then
+    (if tx * idiff / v > f then 0 else f - tx * idiff / v)
+  else
+    f + tx * (if (idiff + ndiff) / 2 > v then v else (idiff + ndiff) / 2) / v
+
+theorem Gmx.vaultFeeBps_eq (i u v f tx : Nat) (inc : Bool) (hv : v ≠ 0) :
+    vaultFeeBps i u v f tx inc = Gmx.vaultFromDiffs (natAbsDiff i v) (natAbsDiff (natNext i u inc) v) v f tx := by
+  unfold vaultFeeBps Gmx.vaultFromDiffs natAbsDiff natNext
+  simp only [hv, if_false]
+
+theorem C17_v1_fee_vault_within_1bp (i u w S W : Nat) (inc : Bool) (hW : 0 < W)
+    (hT : 200 ≤ vaultTarget w S W)
+    (hmirror : ((natNext i u inc : Nat) : Int) + i - 2 * (vaultTarget w S W : Nat) ≤ -1 ∨
+               2 ≤ ((natNext i u inc : Nat) : Int) + i - 2 * (vaultTarget w S W : Nat)) :
+    |(feeBpsCore NumCtx.exact i u ((w : Rat) * S / W) inc).1
+        - ((vaultFeeBps i u (vaultTarget w S W) Gen.gmxMintBurnFeeBps Gen.gmxTaxBps inc : Nat) : Rat)|
+      ≤ 1 + 200 / ((w : Rat) * S / W) := by
+  have hS : S ≠ 0 := by
+    intro h; unfold vaultTarget at hT; simp [h] at hT
+  have hvdef : vaultTarget w S W = w * S / W := by unfold vaultTarget; simp [hS]
+  set v := vaultTarget w S W with hv
+  set n := natNext i u inc with hn
+  set t : Rat := (w : Rat) * S / W with ht
+  obtain ⟨hvt, htv⟩ := natdiv_bounds (w * S) W hW
+  rw [← hvdef] at hvt htv
+  have hcast : (((w * S : Nat)) : Rat) / W = t := by rw [ht]; push_cast; ring
+  rw [hcast] at hvt htv
+  have hv200 : (200 : Rat) ≤ v := by exact_mod_cast hT
+  have ht0 : t ≠ 0 := by linarith
+  have hv0 : v ≠ 0 := by omega
+  have hvpos : 0 < v := by omega
+  -- the code's side
+  unfold feeBpsCore
+  simp only [ht0, if_false]
+  rw [nextAmount_cast, absDiff_eq_abs, absDiff_eq_abs, ← hn]
+  -- the Vault's side
+  rw [Gmx.vaultFeeBps_eq _ _ _ _ _ _ hv0, ← hn]
+  unfold Gmx.vaultFromDiffs feeFromDiffs
+  simp only [NumCtx.exact_add, NumCtx.exact_sub, NumCtx.exact_mul, NumCtx.exact_div, bps25, bps60]
+  have hb25 : Gen.gmxMintBurnFeeBps = 25 := rfl
+  have hb60 : Gen.gmxTaxBps = 60 := rfl
+  rw [hb25, hb60]
+  -- branch decisions agree
+  have hk : ((n : Rat)) + i - 2 * v ≤ -1 ∨ 2 ≤ ((n : Rat)) + i - 2 * v := by
+    rcases hmirror with h | h
+    · left; exact_mod_cast h
+    · right; exact_mod_cast h
+  have hbr := branch_agree (n := (n : Rat)) (i := (i : Rat)) hvt htv hk
+  have hcastlt : (natAbsDiff n v < natAbsDiff i v) ↔ (|(n : Rat) - v| < |(i : Rat) - v|) := by
+    rw [← natAbsDiff_cast, ← natAbsDiff_cast]; exact_mod_cast Iff.rfl
+  have ht200 : 0 ≤ 200 / t := by
+    have : 0 < t := by linarith
+    positivity
+  have hfst : ∀ (c : Prop) [Decidable c] (a b : Rat) (x y : FeeBranch), (if c then (a, x) else (b, y)).1 = if c then a else b := by
+    intros; split <;> rfl
+  by_cases hlt : natAbsDiff n v < natAbsDiff i v
+  · -- both take the rebate branch
+    have hlt' : |(n : Rat) - t| < |(i : Rat) - t| := hbr.mpr (hcastlt.mp hlt)
+    simp only [hlt, hlt', if_true]
+    have hrb := natdiv_bounds (60 * natAbsDiff i v) v hvpos
+    have hc : (((60 * natAbsDiff i v : Nat)) : Rat) = 60 * |(i : Rat) - v| := by push_cast; rw [natAbsDiff_cast]
+    rw [hc] at hrb
+    have hd : abs (abs ((i : Rat) - t) - abs ((i : Rat) - v)) ≤ t - v := by
+      calc abs (abs ((i : Rat) - t) - abs ((i : Rat) - v)) ≤ abs (((i : Rat) - t) - ((i : Rat) - v)) := abs_abs_sub_abs_le_abs_sub _ _
+        _ = t - v := by rw [show ((i : Rat) - t) - ((i : Rat) - v) = -(t - v) by ring, abs_neg, abs_of_nonneg (by linarith)]
+    have key := fee_rebate_close hv200 hvt htv (abs_nonneg _) (abs_nonneg _) hd hrb.1 hrb.2
+    -- cast the Vault's conditional
+    have hvc : (((if 60 * natAbsDiff i v / v > 25 then 0 else 25 - 60 * natAbsDiff i v / v : Nat)) : Rat)
+        = (if ((60 * natAbsDiff i v / v : Nat) : Rat) > 25 then (0 : Rat) else 25 - ((60 * natAbsDiff i v / v : Nat) : Rat)) := by
+      by_cases h25 : 60 * natAbsDiff i v / v > 25
+      · have : ((60 * natAbsDiff i v / v : Nat) : Rat) > 25 := by exact_mod_cast h25
+        simp [h25, this]
+      · have h25' : 60 * natAbsDiff i v / v ≤ 25 := not_lt.mp h25
+        have : ¬ (((60 * natAbsDiff i v / v : Nat) : Rat) > 25) := by
+          have : ((60 * natAbsDiff i v / v : Nat) : Rat) ≤ 25 := by exact_mod_cast h25'
+          linarith
+        simp [h25, this, Nat.cast_sub h25']
+    rw [hvc, hfst]
+    exact key
+  · -- both take the tax branch
+    have hlt' : ¬ |(n : Rat) - t| < |(i : Rat) - t| := fun h => hlt (hcastlt.mpr (hbr.mp h))
+    simp only [hlt, hlt', if_false]
+    have htpos : 0 < t := by linarith
+    set D := |(i : Rat) - t| with hD
+    set N := |(n : Rat) - t| with hN
+    set m := (D + N) / 2 with hm
+    have hm0 : 0 ≤ m := by rw [hm]; positivity
+    -- the code's side as a floor
+    have hpy : (if m > t then ((25 : Rat) + (truncInt (60 * t / t) : Rat), FeeBranch.taxCapped)
+                else ((25 : Rat) + (truncInt (60 * m / t) : Rat), FeeBranch.tax)).1
+        = 25 + ((⌊60 * (if m > t then t else m) / t⌋ : Int) : Rat) := by
+      by_cases hc : m > t
+      · simp only [hc, if_true]; rw [truncInt_eq_floor (by positivity)]
+      · simp only [hc, if_false]; rw [truncInt_eq_floor (by positivity)]
+    rw [hpy]
+    -- the Vault's side as a floor
+    set avgv : Nat := (natAbsDiff i v + natAbsDiff n v) / 2 with havgv
+    have hav : (((if avgv > v then v else avgv : Nat)) : Rat) = (if (avgv : Rat) > v then (v : Rat) else avgv) := by
+      by_cases hc : avgv > v
+      · have : (avgv : Rat) > v := by exact_mod_cast hc
+        simp [hc, this]
+      · have : ¬ ((avgv : Rat) > v) := by
+          have : (avgv : Rat) ≤ v := by exact_mod_cast (not_lt.mp hc)
+          linarith
+        simp [hc, this]
+    have hvf : (((25 + 60 * (if avgv > v then v else avgv) / v : Nat)) : Rat)
+        = 25 + ((⌊60 * (if (avgv : Rat) > v then (v : Rat) else avgv) / v⌋ : Int) : Rat) := by
+      rw [Nat.cast_add, natdiv_cast_floor _ _ hvpos]
+      push_cast
+      simp only [gt_iff_lt, Nat.cast_lt]
+    rw [hvf]
+    -- the averages are within 2 of each other
+    have hb2 := natdiv_bounds (natAbsDiff i v + natAbsDiff n v) 2 (by norm_num)
+    have hsum : (((natAbsDiff i v + natAbsDiff n v : Nat)) : Rat) = |(i : Rat) - v| + |(n : Rat) - v| := by
+      push_cast; rw [natAbsDiff_cast, natAbsDiff_cast]
+    rw [hsum] at hb2
+    have hdD : abs (D - |(i : Rat) - v|) ≤ t - v := by
+      calc abs (abs ((i : Rat) - t) - abs ((i : Rat) - v)) ≤ abs (((i : Rat) - t) - ((i : Rat) - v)) := abs_abs_sub_abs_le_abs_sub _ _
+        _ = t - v := by rw [show ((i : Rat) - t) - ((i : Rat) - v) = -(t - v) by ring, abs_neg, abs_of_nonneg (by linarith)]
+    have hdN : abs (N - |(n : Rat) - v|) ≤ t - v := by
+      calc abs (abs ((n : Rat) - t) - abs ((n : Rat) - v)) ≤ abs (((n : Rat) - t) - ((n : Rat) - v)) := abs_abs_sub_abs_le_abs_sub _ _
+        _ = t - v := by rw [show ((n : Rat) - t) - ((n : Rat) - v) = -(t - v) by ring, abs_neg, abs_of_nonneg (by linarith)]
+    have hma : |m - (avgv : Rat)| ≤ 2 := by
+      have h1 := abs_le.mp hdD
+      have h2 := abs_le.mp hdN
+      have hcast2 : ((2 : Nat) : Rat) = 2 := by norm_num
+      rw [hcast2] at hb2
+      rw [abs_le, hm]
+      constructor <;> linarith [hb2.1, hb2.2]
+    have hclose := fee_tax_close hv200 hvt htv hm0 (by positivity : (0 : Rat) ≤ avgv) hma
+    have hfl := floor_close hclose
+    have : (25 : Rat) + ((⌊60 * (if m > t then t else m) / t⌋ : Int) : Rat)
+        - (25 + ((⌊60 * (if (avgv : Rat) > v then (v : Rat) else avgv) / v⌋ : Int) : Rat))
+        = ((⌊60 * (if m > t then t else m) / t⌋ : Int) : Rat) - ((⌊60 * (if (avgv : Rat) > v then (v : Rat) else avgv) / v⌋ : Int) : Rat) := by ring
+    rw [this]
+    linarith
+
+/-- the same on a data row: `get_fee_basis_points(token, Δ, increase)` for a row whose USDG amount, weight, USDG supply and
+    total weight are the naturals `i`, `w`, `S`, `W` -/
+theorem C17_v1_fee_vault_within_1bp_row {env : Env} {tok : String} {r : TokenRow} (i u w S W : Nat) (inc : Bool) (hW : 0 < W)
+    (hrow : env.row? tok = some r) (hi : r.usdg = i)
+    (htarget : targetAmount NumCtx.exact env tok = .ok ((w : Rat) * S / W))
+    (hT : 200 ≤ vaultTarget w S W)
+    (hmirror : ((natNext i u inc : Nat) : Int) + i - 2 * (vaultTarget w S W : Nat) ≤ -1 ∨
+               2 ≤ ((natNext i u inc : Nat) : Int) + i - 2 * (vaultTarget w S W : Nat)) :
+    ∃ f br, feeBps NumCtx.exact env tok u inc = .ok (f, br) ∧
+      |f - ((vaultFeeBps i u (vaultTarget w S W) Gen.gmxMintBurnFeeBps Gen.gmxTaxBps inc : Nat) : Rat)| ≤ 1 + 200 / ((w : Rat) * S / W) := by
+  refine ⟨(feeBpsCore NumCtx.exact i u ((w : Rat) * S / W) inc).1, (feeBpsCore NumCtx.exact i u ((w : Rat) * S / W) inc).2, ?_,
+    C17_v1_fee_vault_within_1bp i u w S W inc hW hT hmirror⟩
+  unfold feeBps
+  simp only [hrow, htarget, hi, bind, Except.bind, pure, Except.pure]
+
+/-- **the two rules take the same branch (rebate / tax) unless `next + initial − 2·⌊T⌋ ∈ {0, 1}`** — the mirror image of the
+    initial amount about the target, where the Vault's own rule jumps. -/
+theorem C17_v1_fee_branch_agrees_off_mirror (i n v : Nat) (t : Rat) (hvt : (v : Rat) ≤ t) (htv : t < v + 1)
+    (hk : (n : Int) + i - 2 * v ≤ -1 ∨ 2 ≤ (n : Int) + i - 2 * v) :
+    (absDiff NumCtx.exact n t < absDiff NumCtx.exact i t) ↔ (natAbsDiff n v < natAbsDiff i v) := by
+  rw [absDiff_eq_abs, absDiff_eq_abs]
+  have hk' : ((n : Rat)) + i - 2 * v ≤ -1 ∨ 2 ≤ ((n : Rat)) + i - 2 * v := by
+    rcases hk with h | h
+    · left; exact_mod_cast h
+    · right; exact_mod_cast h
+  rw [branch_agree hvt htv hk', ← natAbsDiff_cast, ← natAbsDiff_cast]
+  exact_mod_cast Iff.rfl
+
+/-- **witness: at the rule's discontinuity the code and the Vault disagree by the whole fee range.**  With `initial = 0`,
+    `Δ = 2·⌊T⌋` and `T = 1000.5` (weights 1 of 2, USDG supply 2001) the code sees an improvement (fee 0) and the contract
+    does not (fee 25 + 60).  Finding `v1.fee.vault_rule.branch_edge`. -/
 theorem C17_fails_v1_fee_within_1bp_at_mirror :
     ∃ (i u w S W : Nat) (inc : Bool), 0 < W ∧ 200 ≤ vaultTarget w S W ∧
+      ((natNext i u inc : Nat) : Int) + i - 2 * (vaultTarget w S W : Nat) = 0 ∧
       (feeBpsCore NumCtx.exact i u ((w : Rat) * S / W) inc).1 = 0 ∧
       vaultFeeBps i u (vaultTarget w S W) Gen.gmxMintBurnFeeBps Gen.gmxTaxBps inc = 85 :=
-  ⟨0, 2000, 1, 2001, 2, true, by decide, by decide, by decide +kernel, by decide⟩
+  ⟨0, 2000, 1, 2001, 2, true, by decide, by decide, by decide, by decide +kernel, by decide⟩
+
+/-! ### non-vacuity: the hypotheses of the 1-bp theorem hold on concrete pools, and both branches occur -/
+
+/-- rebate branch: target 1000.5, initial 900, +50: code 25 − 60·100.5/1000.5 ≈ 18.97, Vault 25 − ⌊60·100/1000⌋ = 19 -/
+example : 200 ≤ vaultTarget 1 2001 2 ∧ ((natNext 900 50 true : Nat) : Int) + 900 - 2 * (vaultTarget 1 2001 2 : Nat) ≤ -1 ∧
+    vaultFeeBps 900 50 (vaultTarget 1 2001 2) 25 60 true = 19 ∧
+    (feeBpsCore NumCtx.exact 900 50 ((1 : Rat) * 2001 / 2) true) = (12655 / 667, .rebate) := by
+  refine ⟨by decide, by decide, by decide, by decide +kernel⟩
+
+/-- tax branch: initial 1200, +300: code 25 + ⌊60·349.5/1000.5⌋ = 45, Vault 25 + ⌊60·350/1000⌋ = 46 -/
+example : 2 ≤ ((natNext 1200 300 true : Nat) : Int) + 1200 - 2 * (vaultTarget 1 2001 2 : Nat) ∧
+    vaultFeeBps 1200 300 (vaultTarget 1 2001 2) 25 60 true = 46 ∧
+    (feeBpsCore NumCtx.exact 1200 300 ((1 : Rat) * 2001 / 2) true) = (45, .tax) := by
+  refine ⟨by decide, by decide, by decide +kernel⟩
 
 end Demeter
